@@ -106,6 +106,9 @@ class Dep:
                 for x in tg:
                     self.deps[x] |= srcs
                     self.events[x].append(("call", bi, t))
+                    for a in t["args"]:
+                        if "k" in a:
+                            self.events[x].append(("const", a["k"]))
 
     def slice(self, locals_, stop=None):
         """transitive closure of deps from the given locals -> set of locals.
